@@ -141,18 +141,20 @@ Definition peek_fuel : nat := 4200.   (* more than bufio_size: every fill adds a
 
 Definition be16 (buf : list N) : N := nth 0 buf 0 * 256 + nth 1 buf 0.
 
-(* handleTCPDnsFastPath up to the decision "is this DNS": None = handled as DNS (not a relay) *)
+(* handleTCPDnsFastPath up to the decision "is this DNS": None = handled as DNS (not a relay).
+   Every fallback to the normal relay clears the detection deadline (5fcc1e4); a frame that parses as a
+   response is left in the buffer (512bb6f). *)
 Definition dns_stage_f (fuel : nat) (orc : dns_oracle) (c : conn) (s : sock) (now : N) : option conn * sock * N :=
   let s1 := set_dl s (Some (now + c05_dns_first_timeout_ms)) in
   let '(ok, buf, c1, s2, t2) := peek fuel 2 [] c s1 now in
-  if negb ok then (Some (CBufio buf c1), s2, t2) else
+  if negb ok then (Some (CBufio buf c1), set_dl s2 None, t2) else
   let l := be16 buf in
-  if l <? 12 then (Some (CBufio buf c1), s2, t2) else
+  if l <? 12 then (Some (CBufio buf c1), set_dl s2 None, t2) else
   let '(ok2, buf2, c3, s3, t3) := peek fuel (2 + l) buf c1 s2 t2 in
-  if negb ok2 then (Some (CBufio buf2 c3), s3, t3) else
+  if negb ok2 then (Some (CBufio buf2 c3), set_dl s3 None, t3) else
   match orc with
-  | DnsErr => (Some (CBufio buf2 c3), s3, t3)
-  | DnsResponse => (Some (CBufio (drop (2 + l) buf2) c3), s3, t3)   (* the frame was Discarded *)
+  | DnsErr => (Some (CBufio buf2 c3), set_dl s3 None, t3)
+  | DnsResponse => (Some (CBufio buf2 c3), set_dl s3 None, t3)
   | DnsQuery => (None, s3, t3)
   end.
 
@@ -191,13 +193,15 @@ Definition is_likely_http_or_tls (p : list N) : bool :=
 
 (* SniffTcp's read loop.  One oracle answer per round: does the parser say "need more"?  rooms: the
    free space of Sniffer.buf offered to each Read.  dl: the Sniffer's fixed absolute deadline. *)
+Definition sniff_min_read : N := 512.   (* bytes.MinRead: ReadFromOnce grows the buffer to offer at least this much *)
+
 Fixpoint sniff_rounds (answers : list (bool * N)) (dl : N) (buf : list N) (c : conn) (s : sock) (now : N)
   : list N * option rerr * conn * sock * N * bool (* spun at EOF until the deadline *) :=
   match answers with
   | [] => (buf, None, c, s, now, false)
   | (more, room) :: rest =>
       let s1 := set_dl s (Some dl) in
-      let '(r, c2, s2, t) := conn_read c room s1 now in
+      let '(r, c2, s2, t) := conn_read c (N.max room sniff_min_read) s1 now in
       let s3 := set_dl s2 None in
       let buf2 := buf ++ r_data r in
       match r_err r with
@@ -215,10 +219,16 @@ Fixpoint sniff_rounds (answers : list (bool * N)) (dl : N) (buf : list N) (c : c
       end
   end.
 
+(* SniffTcp always reads at least once *)
+Definition sniff_stage (answers : list (bool * N)) (dl : N) (c : conn) (s : sock) (now : N) :=
+  sniff_rounds (match answers with [] => [(false, sniff_min_read)] | _ => answers end) dl [] c s now.
+
 Record pcase := mkP {
-  p_port53 : bool;             (* dst.Port() == 53 *)
-  p_try_sniff : bool;          (* shouldTryTcpSniff && not suppressed by the negative cache *)
-  p_sniff_ms : N;
+  p_port : N;                  (* dst.Port() *)
+  p_sniff_ms : N;              (* c.sniffingTimeout *)
+  p_dial_ip : bool;            (* c.dialMode == ip *)
+  p_outbound : N;              (* routingResult.Outbound *)
+  p_neg_skip : bool;           (* shouldSkipTcpSniffByNegativeCache *)
   p_dns : dns_oracle;
   p_answers : list (bool * N)  (* sniff rounds: (need more?, room) *)
 }.
@@ -235,6 +245,10 @@ Definition should_try_sniff (sniff_ms : N) (dial_ip : bool) (outbound port : N) 
   (0 <? sniff_ms) && negb dial_ip && negb (outbound =? c05_outbound_direct) && negb (outbound =? c05_outbound_block)
   && negb (existsb (N.eqb port) c05_excluded_ports).
 
+Definition p_port53 (p : pcase) : bool := p_port p =? 53.
+Definition p_try_sniff (p : pcase) : bool :=
+  should_try_sniff (p_sniff_ms p) (p_dial_ip p) (p_outbound p) (p_port p) && negb (p_neg_skip p).
+
 (* handleConn from the port-53 test up to the dial *)
 Definition prologue (p : pcase) (s0 : sock) (now0 : N) : pstate :=
   let '(oc, s1, t1, ran_dns) :=
@@ -247,7 +261,7 @@ Definition prologue (p : pcase) (s0 : sock) (now0 : N) : pstate :=
       let '(c2, pre, ready, s2, t2) := prefetch_stage (p_sniff_ms p) c1 s1 t1 in
       if negb ready then mkPS (Some c2) s2 t2 ran_dns true false false else
       if negb (is_likely_http_or_tls pre) then mkPS (Some c2) s2 t2 ran_dns true false false else
-      let '(buf, derr, c3, s3, t3, spin) := sniff_rounds (p_answers p) (t2 + p_sniff_ms p) [] c2 s2 t2 in
+      let '(buf, derr, c3, s3, t3, spin) := sniff_stage (p_answers p) (t2 + p_sniff_ms p) c2 s2 t2 in
       mkPS (Some (CSniffer buf derr c3)) s3 t3 ran_dns true true spin
   end.
 
@@ -336,9 +350,15 @@ Record relay := mkRelay {
 }.
 
 (* a direction that has just reached PDone: CloseWrite(dst); clean -> grace deadline on dst, error -> forceClose *)
-(* dst.(WriteCloser): *net.TCPConn has CloseWrite; bufioConn, prefixedConn and ConnSniffer embed the
-   net.Conn INTERFACE and therefore have no CloseWrite method *)
-Definition has_close_write (c : conn) : bool := match c with CSock => true | _ => false end.
+(* dst.(WriteCloser): *net.TCPConn has CloseWrite; bufioConn, prefixedConn and ConnSniffer pass it on to the
+   conn they wrap (b8da220) *)
+Fixpoint has_close_write (c : conn) : bool :=
+  match c with
+  | CSock => true
+  | CBufio _ c' => has_close_write c'
+  | CPrefixed _ c' => has_close_write c'
+  | CSniffer _ _ c' => has_close_write c'
+  end.
 
 Definition finish (grace : N) (left : bool) (d : dirst) (y : relay) (t : N) : relay :=
   let cw := if left then true else has_close_write (d_stack (y_l2r y)) in
